@@ -172,6 +172,7 @@ type Mod struct {
 	Fn   string // function containing the writing instruction
 	Via  string // call chain from the summarised function ("" when direct)
 	Desc string
+	Typ  string // static type of the written container / location
 }
 
 func (m Mod) key() string { return m.Loc + "|" + m.Kind + "|" + m.Fn + "|" + fmt.Sprint(m.Pos) }
@@ -441,9 +442,9 @@ func (st *fnState) addCopy(dst, src string) {
 	}
 }
 
-func (st *fnState) mod(l, kind string, ins ssa.Instruction, via string, origFn string, origPos token.Pos, desc string) {
+func (st *fnState) mod(l, kind string, ins ssa.Instruction, via string, origFn string, origPos token.Pos, desc string, typ string) {
 	l = untag(l)
-	m := Mod{Loc: l, Kind: kind, Pos: origPos, Fn: origFn, Via: via, Desc: desc}
+	m := Mod{Loc: l, Kind: kind, Pos: origPos, Fn: origFn, Via: via, Desc: desc, Typ: typ}
 	k := m.key()
 	if _, ok := st.mods[k]; !ok {
 		st.mods[k] = m
@@ -527,10 +528,17 @@ func (st *fnState) store(addrs locset, t types.Type, vs locset) {
 	}
 }
 
-func (st *fnState) recordWrite(addrs locset, kind string, ins ssa.Instruction) {
+func (st *fnState) recordWrite(addrs locset, kind string, ins ssa.Instruction, typ any) {
+	ts := ""
+	switch t := typ.(type) {
+	case string:
+		ts = t
+	case types.Type:
+		ts = "elem " + typeStr(t)
+	}
 	for a := range addrs {
 		if externalLoc(a) {
-			st.mod(a, kind, ins, "", funcName(st.fn), ins.Pos(), st.h.p.describe(ins))
+			st.mod(a, kind, ins, "", funcName(st.fn), ins.Pos(), st.h.p.describe(ins), ts)
 		}
 	}
 }
@@ -598,11 +606,11 @@ func (st *fnState) transfer(ins ssa.Instruction) {
 	case *ssa.Store:
 		addrs := st.get(x.Addr)
 		st.store(addrs, x.Val.Type(), st.get(x.Val))
-		st.recordWrite(addrs, "store", x)
+		st.recordWrite(addrs, "store", x, storeType(x.Addr))
 	case *ssa.MapUpdate:
 		el := elemOf(st.get(x.Map))
 		st.store(el, x.Value.Type(), st.get(x.Value))
-		st.recordWrite(el, "mapupdate", x)
+		st.recordWrite(el, "mapupdate", x, x.Map.Type())
 	case *ssa.Send:
 		el := elemOf(st.get(x.Chan))
 		st.store(el, x.X.Type(), st.get(x.X))
@@ -957,7 +965,7 @@ func (st *fnState) instantiate(c ssa.CallInstruction, g *ssa.Function, sum *Summ
 				if m.Via != "" {
 					via += " -> " + m.Via
 				}
-				st.mod(l, m.Kind, c, via, m.Fn, m.Pos, m.Desc)
+				st.mod(l, m.Kind, c, via, m.Fn, m.Pos, m.Desc, m.Typ)
 			}
 		}
 	}
@@ -1017,7 +1025,7 @@ func (st *fnState) builtin(name string, c ssa.CallInstruction, res ssa.Value) {
 				}
 			}
 		}
-		st.recordWrite(elemOf(st.get(args[0])), "append", c)
+		st.recordWrite(elemOf(st.get(args[0])), "append", c, args[0].Type())
 	case "copy":
 		dst := elemOf(st.get(args[0]))
 		if sl, ok := args[0].Type().Underlying().(*types.Slice); ok && holdsRefs(sl.Elem()) {
@@ -1031,11 +1039,11 @@ func (st *fnState) builtin(name string, c ssa.CallInstruction, res ssa.Value) {
 				}
 			}
 		}
-		st.recordWrite(dst, "copy", c)
+		st.recordWrite(dst, "copy", c, args[0].Type())
 	case "delete":
-		st.recordWrite(elemOf(st.get(args[0])), "delete", c)
+		st.recordWrite(elemOf(st.get(args[0])), "delete", c, args[0].Type())
 	case "clear":
-		st.recordWrite(elemOf(st.get(args[0])), "delete", c)
+		st.recordWrite(elemOf(st.get(args[0])), "delete", c, args[0].Type())
 	}
 }
 
@@ -1195,4 +1203,17 @@ func (h *Heap) summaryFor(g *ssa.Function, act map[string]locset) *Summary {
 	h.ctxOrder = append(h.ctxOrder, k)
 	h.newCtx = true
 	return h.ctxSums[k]
+}
+
+// storeType describes the location written by a Store: "T.f" for a field of a
+// named struct, "elem []T" for a slice element, otherwise the pointee type.
+func storeType(addr ssa.Value) string {
+	switch a := addr.(type) {
+	case *ssa.FieldAddr:
+		o, f := fieldRef(a.X, a.Field)
+		return "field " + o + "." + f + " " + typeStr(deref(a.Type()))
+	case *ssa.IndexAddr:
+		return "elem " + typeStr(a.X.Type())
+	}
+	return "*" + typeStr(deref(addr.Type()))
 }
